@@ -68,7 +68,7 @@ def p_thrift(ctx):
 
 def run(ctx):
     from ._generic import optional_parts
-    return run_property(ctx, "other", EXPLANATION, p_parts=[p_tables, p_varints, p_thrift, p_merge_bytes] + optional_parts(("_thriftobj", "p_thriftobj")), b_modules=["c10_idl_roundtrip"],
+    return run_property(ctx, "other", EXPLANATION, p_parts=[p_tables, p_varints, p_thrift, p_merge_bytes] + optional_parts(("_thriftobj", "p_thriftobj"), ("_many", "p_many_fetch")), b_modules=["c10_idl_roundtrip"],
                         assumptions=["the IDL file shipped with the library (parquet.thrift) is the normative one",
                                      "a struct absent from the tables is refused with an error (KeyError) when used"] + kernels.ASSUMED,
                         trusted=["spec/thrift_idl.py (IDL parser, validated by re-encoding 24 third-party footers byte-identically)",
